@@ -229,6 +229,34 @@ def run(ctx):
         ctx.case((name,), nontrivial=not np.all(a == b))
     reqs.append(dict(op="metric", S=G, pairs=allp.tolist())); meta.append(("metrics", allp))
     # ---- model
+    # ---- churn: lattices built, queried once and dropped (re-used object addresses): a path on the new lattice is a valid chain of the new lattice
+    for cname, lc in zoo.churn(rng, 30 if quick else 300, lo=5, hi=14):
+        try:
+            if lc.n_plaquettes < 2 or not plaquette_graph_connected(lc):
+                continue
+        except Exception:
+            continue
+        for kind, finder, nmax in (("vertex", pf.path_between_vertices, lc.n_vertices), ("plaquette", pf.path_between_plaquettes, lc.n_plaquettes)):
+            if kind == "vertex":
+                comp = {0}; todo = [0]; nb = [[] for _ in range(lc.n_vertices)]
+                for a_, b_ in lc.edges.indices:
+                    nb[int(a_)].append(int(b_)); nb[int(b_)].append(int(a_))
+                while todo:
+                    x = todo.pop()
+                    for y in nb[x]:
+                        if y not in comp: comp.add(y); todo.append(y)
+                if len(comp) != lc.n_vertices:
+                    continue
+            a, b = (int(x) for x in rng.choice(nmax, 2, replace=False))
+            rep = lambda what, **kw: ctx.impl_violation(f"{cname} [{kind} path {a}->{b}, lattice built after others were dropped]: {what}",
+                                                        dict(case=cname, kind=kind, start=a, goal=b, lattice=zoo.lat_to_json(lc), **kw))
+            try:
+                nodes, edges = finder(lc, a, b, maxits=max(lc.n_edges, 1) * 4)
+            except Exception as ex:
+                rep(f"raised {type(ex).__name__}: {ex}"); continue
+            check_path(ctx, lc, kind, None, None, None, a, b, True, nodes, edges, rep)
+            ctx.case((cname, kind, a, b), nontrivial=True)
+        ctx.count("churn_lattices")
     outs = core.Driver().run_parallel(reqs)
     for (name, queries), o in zip(meta, outs):
         brk = lambda what, **kw: ctx.corr_break(f"{name}: {what}", dict(case=name, **kw))
